@@ -56,10 +56,19 @@ def LInField.key : LInField → Bytes
   | .tokenRangeproof => pk 0x03 | .issueProof => pk 0x0f | .tokenValue => pk 0x0a
   | .tokenCommitment => pk 0x0b | .issueNonce => pk 0x0c | .issueEntropy => pk 0x0d | .tokenProof => pk 0x10
 
-/-- required value length of the integer fields (`_set_once(..., length)`) -/
+/-- required value length of the integer fields (`_set_once(..., length)`) and, since fix `c18-kf1`, of the issuance
+    fields a transaction holds verbatim (`_set_commitment`: 33 bytes; `_set_once(..., 32, raw=True)`: nonce, entropy) -/
 def LInField.len : LInField → Option Nat
   | .value => some 8 | .issueValue => some 8 | .tokenValue => some 8
+  | .issueCommitment => some 33 | .tokenCommitment => some 33
+  | .issueNonce => some 32 | .issueEntropy => some 32
   | _ => none
+
+/-- `_set_commitment` (fix `c18-kf1`): a commitment field starts with 08 or 09 (a confidential value commitment) -/
+def LInField.pfxOK : LInField → Bytes → Bool
+  | .issueCommitment, v => v.head? == some 8 || v.head? == some 9
+  | .tokenCommitment, v => v.head? == some 8 || v.head? == some 9
+  | _, _ => true
 
 def LInField.ofKey (k : Bytes) : Option LInField := LInField.order.find? (fun f => f.key == k)
 
@@ -108,7 +117,7 @@ def LInScope.addPair (ko : KeyOps) (s : LInScope) (k v : Bytes) : Option LInScop
     match LInField.ofKey k with
     | some f =>
       if (lget s.lf f).isSome then none
-      else if !lenOK f.len v then none
+      else if !(lenOK f.len v && f.pfxOK v) then none
       else some { s with lf := s.lf ++ [(f, v)] }
     | none =>
       if (lookup k s.base.unknown).isSome then none
